@@ -7,6 +7,7 @@ import (
 	"strings"
 
 	"github.com/oleiade/reflections"
+	"gopkg.in/yaml.v3"
 )
 
 // inlineFriendlyMarshalJSON marshals the given object to JSON, but with special handling given to fields tagged with ",inline".
@@ -76,6 +77,12 @@ func inlineFriendlyMarshalJSON(q any) ([]byte, error) {
 func isEmptyValue(q any) bool {
 	if q == nil { // not stolen from encoding/json, but oddly missing from it?
 		return true
+	}
+
+	// Like yaml.v3's omitempty: a value that knows it is zero (for example an
+	// empty ordered map) is empty, so that JSON and YAML omit the same fields.
+	if z, ok := q.(yaml.IsZeroer); ok {
+		return z.IsZero()
 	}
 
 	v := reflect.ValueOf(q)
